@@ -204,3 +204,10 @@ package proxy
 //@   ensures[router-protected] verifier != nil ==> grpAuth[addr(gEngine.RouterGroup)]
 //@   ensures[configured-verifier] verifier != nil ==> gAuthObj != nil && gAuthObj.verifier == verifier
 //@   ensures[routes] gRoutes >= old(gRoutes) + 1 && gNoRoute
+
+// ---- shutdown order (C18): step recorded for server.(*Server).Shutdown ----------------
+//@ contract (*Server).Shutdown
+//@   trusted http.Server.Shutdown of the proxy port
+//@   modifies-all $gShutStep $tProxyDown
+//@   ghost-set gShutStep = old(gShutStep) + 1
+//@   ghost-set tProxyDown = old(gShutStep) + 1
